@@ -500,6 +500,8 @@ class Messenger(Connection):
         # Set after SESS_TERM sent
         self._in_term = False
         self._in_term_func = None
+        # Set after SESS_TERM received
+        self._got_term = False
 
         self._tls_attempt = False
         # Assume socket is ready
@@ -1042,6 +1044,7 @@ class Messenger(Connection):
         self._sessinit_this = None
         self._in_sess = False
         self._in_term = False
+        self._got_term = False
 
         if not self._as_passive:
             # Passive side listens first
@@ -1057,6 +1060,7 @@ class Messenger(Connection):
         '''
         if not self._in_sess:
             raise RejectError(messages.RejectMsg.Reason.UNEXPECTED)
+        self._got_term = True
 
     def recv_xfer_data(self, transfer_id, flags, data, ext_items):
         ''' Handle reception of XFER_DATA message.
@@ -1269,7 +1273,7 @@ class ContactHandler(Messenger, dbus.service.Object):
 
     def _check_sess_term(self):
         ''' Perform post-termination logic. '''
-        if self._in_term and self.is_sess_idle():
+        if self._in_term and self._got_term and self.is_sess_idle():
             self._logger.info('Closing in terminating state')
             self.close()
 
